@@ -700,6 +700,28 @@ func c18Outcome(w http.ResponseWriter, kind string) {
 	}
 }
 
+// c18PartialWriter: an underlying http.ResponseWriter that accepts only the first `left` bytes
+type c18PartialWriter struct {
+	http.ResponseWriter
+	left int
+	fail bool
+}
+
+func (w *c18PartialWriter) Write(p []byte) (int, error) {
+	n := len(p)
+	if n > w.left {
+		n = w.left
+	}
+	w.left -= n
+	w.ResponseWriter.Write(p[:n])
+	if n < len(p) && w.fail {
+		return n, io.ErrShortWrite
+	}
+	return n, nil
+}
+
+func (w *c18PartialWriter) WriteString(s string) (int, error) { return w.Write([]byte(s)) }
+
 // c18Inner: the wrapped (user) handler of the cs / crypt sections: reads the body, sets an explicit status (st…), writes the
 // reply, panics (panic-… / abort) — in that order
 func c18Inner(got *c18Got, reply []byte, hk string) http.Handler {
@@ -1007,6 +1029,38 @@ func c18StartCrypt(cfg verifh.Cfg) (func(op []string) string, func()) {
 	}
 	wire := &c18Wire{}
 	step := func(op []string) string {
+		if op[0] == "big" {
+			// a properly encrypted body whose base64 text (filled up with line feeds, which the decoder skips) has EXACTLY n bytes:
+			// only lengths and a digest-like verdict go into the trace
+			kv := c18KV(op)
+			n := verifh.Atoi(kv["n"])
+			plen := (n/4*3/16 - 1) * 16
+			if plen < 0 {
+				plen = 0
+			}
+			payload := make([]byte, plen)
+			x := uint32(verifh.Atoi(kv["seed"]))*2654435761 + 1
+			for i := range payload {
+				x = x*1664525 + 1013904223
+				payload[i] = byte(x >> 24)
+			}
+			body := c18ClientEncrypt(key, payload)
+			if len(body) > n {
+				return "bad-op-big"
+			}
+			for len(body) < n {
+				body = append(body, '\n')
+			}
+			q := c18Req{method: http.MethodPost, target: "/a", body: body, fr: kv["fr"]}
+			var got c18Got
+			status, respBody := wire.send("", c18Front(&got, mw(c18Inner(&got, nil, ""))), q)
+			ok := 0
+			if bytes.Equal(got.seen, payload) {
+				ok = 1
+			}
+			return fmt.Sprintf("cl=%d blen=%d plen=%d ran=%d status=%s seenlen=%d seenok=%d resplen=%d", got.cl, len(body), plen, got.ran, status,
+				len(got.seen), ok, len(respBody))
+		}
 		if op[0] != "req" {
 			return "bad-op"
 		}
@@ -1016,15 +1070,29 @@ func c18StartCrypt(cfg verifh.Cfg) (func(op []string) string, func()) {
 		q := c18Req{method: http.MethodPost, target: "/a", body: body, fr: kv["fr"], clOverride: kv["cl"]}
 		var got c18Got
 		inner := c18Inner(&got, reply, kv["hk"])
-		status, respBody := wire.send(kv["via"], c18Front(&got, mw(inner)), q)
+		var front http.Handler = c18Front(&got, mw(inner))
+		if wk := kv["wk"]; wk != "" {
+			// the underlying writer takes only the first n bytes: "fail:n" returns an error, "short:n" returns n < len without one
+			p := strings.SplitN(wk, ":", 2)
+			inner0 := front
+			front = http.HandlerFunc(func(w http.ResponseWriter, r *http.Request) {
+				inner0.ServeHTTP(&c18PartialWriter{ResponseWriter: w, left: verifh.Atoi(p[1]), fail: p[0] == "fail"}, r)
+			})
+		}
+		status, respBody := wire.send(kv["via"], front, q)
 		if !got.reached {
 			return "unreached status=" + status
 		}
 		if got.panicked {
 			status = "PANIC"
 		}
+		texts := [][]byte{body, respBody}
+		if kv["wk"] != "" && (len(key) == 16 || len(key) == 24 || len(key) == 32) {
+			// the reply may arrive cut: the block table needs the blocks of the WHOLE encrypted reply (stdlib AES)
+			texts = append(texts, c18ClientEncrypt(key, reply))
+		}
 		return fmt.Sprintf("cl=%d aes=%s ran=%d status=%s seen=%s resp=%s", got.cl,
-			c18AesOracle(key, body, respBody), got.ran, status, c18Hex(got.seen), c18Hex(respBody))
+			c18AesOracle(key, texts...), got.ran, status, c18Hex(got.seen), c18Hex(respBody))
 	}
 	return step, wire.close
 }
@@ -2087,6 +2155,28 @@ func c18GenCryptLimit(r *verifh.Rng, limit int) verifh.Section {
 	return verifh.Section{Cfg: cfg, Ops: ops}
 }
 
+// c18GenCryptCap: bodies around the DEFAULT cap (maxBytes = 1 MiB) of the cryption path, through both constructors and with
+// "no limit configured" (0 / negative: the cap applies to a body of unknown length only)
+func c18GenCryptCap(r *verifh.Rng, variant int) verifh.Section {
+	key := c18AesKey(r)
+	cfg := fmt.Sprintf("kind=crypt key=%s limit=%d", c18Hex(key), []int{1 << 20, 1 << 20, 0, -1}[variant%4])
+	if variant%4 == 1 {
+		cfg += " ctor=plain"
+	}
+	var ops []string
+	for _, fr := range []string{"chunked", "len"} {
+		for _, d := range []int{-1, 0, 1} {
+			ops = append(ops, fmt.Sprintf("big n=%d fr=%s seed=%d", 1<<20+d, fr, r.Intn(1000000)))
+		}
+	}
+	ops = append(ops, fmt.Sprintf("big n=%d fr=%s seed=%d", 1<<20+r.Range(2, 5000), r.PickS("chunked", "len"), r.Intn(1000000)))
+	for i := len(ops) - 1; i > 0; i-- {
+		j := r.Intn(i + 1)
+		ops[i], ops[j] = ops[j], ops[i]
+	}
+	return verifh.Section{Cfg: cfg, Ops: ops}
+}
+
 func c18GenCrypt(r *verifh.Rng, plan *c18Plan, combos [][2]int) verifh.Section {
 	key := c18AesKey(r)
 	if r.Chance(1, 8) {
@@ -2178,6 +2268,9 @@ func c18GenCrypt(r *verifh.Rng, plan *c18Plan, combos [][2]int) verifh.Section {
 		if r.Chance(1, 4) {
 			op += " hk=" + r.PickS("st404", "st500", "panic-err", "panic-str", "abort")
 		}
+		if !strings.Contains(op, "via=wire") && r.Chance(1, 6) {
+			op += fmt.Sprintf(" wk=%s:%d", r.PickS("fail", "short"), r.Pick(0, 1, 23, 24, 25, 44, 1000))
+		}
 		ops = append(ops, op)
 	}
 	return verifh.Section{Cfg: cfg, Ops: ops}
@@ -2266,6 +2359,10 @@ func c18Gen(r *verifh.Rng) []verifh.Section {
 	}
 	for _, limit := range []int{64, 128, 48, 65} {
 		secs = append(secs, c18GenCryptLimit(r.Fork(), limit))
+	}
+	v0 := r.Intn(4)
+	for i := 0; i < verifh.Scale(2, 4); i++ {
+		secs = append(secs, c18GenCryptCap(r.Fork(), (v0+i/2)%2+i%2*2)) // quick: a configured-limit variant and a no-limit variant
 	}
 	secs = append(secs, c18GenText(r.Fork()))
 	return secs
